@@ -23,6 +23,7 @@ mod ops_arena;
 mod ops_det;
 mod ops_c04;
 mod ops_cm;
+mod ops_strleaf;
 
 pub const COMPONENTS: &[fn(&str, &[String]) -> Option<String>] = &[
     ops_anchors::dispatch,
@@ -31,6 +32,7 @@ pub const COMPONENTS: &[fn(&str, &[String]) -> Option<String>] = &[
     ops_c04::dispatch,
     ops_cli::dispatch,
     ops_cm::dispatch,
+    ops_strleaf::dispatch,
 ];
 
 #[allow(dead_code)]
